@@ -999,6 +999,10 @@ func (req *IdpAuthnRequest) getSPEncryptionCert() (*x509.Certificate, error) {
 				return nil, fmt.Errorf("key descriptor for encryption contains no certificate")
 			}
 			certStr = keyDescriptor.KeyInfo.X509Data.X509Certificates[0].Data
+			if certStr == "" {
+				// an empty placeholder: a later descriptor may carry the certificate
+				continue
+			}
 			break
 		}
 	}
